@@ -38,6 +38,7 @@ def check(ck):
     r14_2(ck)
     r14_3(ck)
     r14_4(ck)
+    r14_5(ck)
 
 
 def fstring_affixes(node):
@@ -337,14 +338,28 @@ def r14_4(ck):
     ck.functions.add(dd.fq)
     p = A.params_of(sd.node)[1]
     ok = False
-    for r in A.walk_no_nested(sd.node):
-        if isinstance(r, ast.Return) and isinstance(r.value, ast.ListComp):
+    rets_sd = [r for r in A.walk_no_nested(sd.node)
+               if isinstance(r, ast.Return)]
+    for r in rets_sd:
+        good = False
+        if isinstance(r.value, ast.ListComp):
             lc = r.value
             g = lc.generators[0]
-            ok = len(lc.generators) == 1 and not g.ifs and A.is_name(
+            good = len(lc.generators) == 1 and not g.ifs and A.is_name(
                 g.iter, p) and isinstance(lc.elt, ast.Call) and \
                 A.call_name(lc.elt) == 'deserialize_value' and A.unparse(
                     A.arg_of(lc.elt, 0)) == A.unparse(g.target)
+        if not good:
+            ck.fail('R14.4', sd, r,
+                    'a path of the list deserializer returns %s instead of '
+                    'rebuilding the list element by element: later '
+                    'elements that need deserialising come back as their '
+                    'serialised strings' % A.short(r.value, 50), r,
+                    what='every return rebuilds the list elementwise')
+        ok = ok or good
+    if False:
+        if True:
+            pass
     ck.require(ok, 'R14.4', sd, sd.node.name,
                'a list is rebuilt element by element with deserialize_value',
                'the list deserializer drops, filters or does not '
@@ -352,6 +367,13 @@ def r14_4(ck):
     p = A.params_of(dd.node)[1]
     ok = False
     for r in A.walk_no_nested(dd.node):
+        if isinstance(r, ast.Return) and not isinstance(
+                r.value, ast.DictComp):
+            ck.fail('R14.4', dd, r,
+                    'a path of the dict deserializer returns %s instead of '
+                    'rebuilding the dictionary value by value' % A.short(
+                        r.value, 50), r,
+                    what='every return rebuilds the dict value by value')
         if isinstance(r, ast.Return) and isinstance(r.value, ast.DictComp):
             dc = r.value
             g = dc.generators[0]
@@ -372,3 +394,68 @@ def r14_4(ck):
     ck.require(ok, 'R14.4', em, em.node.name,
                'get_data_deserialized applies deserialize_value to the data',
                None)
+
+
+def r14_5(ck):
+    ck.rule('R14.5', 'payload integrity and totality of the serializers: '
+            'between the regex group and the unit registry the payload is '
+            'only sliced by a constant prefix or stripped (never tokenised '
+            'or rewritten); serialize() methods do not apply partial '
+            'operations (sorted/min/max) to the members of the data')
+    us = ck.repo.cls('UnitsSerializer')
+    de = us.methods['deserialize']
+    n = 0
+    for c in A.calls_in(de.node, 'units'):
+        if not isinstance(c.func, ast.Name) or not c.args:
+            continue
+        n += 1
+        bad = []
+
+        def lossy(x):
+            if isinstance(x, ast.Call) and A.call_name(x) in (
+                    'split', 'rsplit', 'partition', 'rpartition', 'replace',
+                    'sub', 'lower', 'upper', 'title', 'findall', 'join',
+                    'format'):
+                bad.append(x)
+                return True
+            if isinstance(x, ast.Subscript) and not isinstance(
+                    x.slice, ast.Slice) and not (
+                    isinstance(x.value, ast.Name) and x.value.id == 'data'
+                    and False):
+                # indexing a tokenised payload
+                if isinstance(x.value, ast.Call):
+                    bad.append(x)
+                    return True
+            return False
+        derives(de.node, c.args[0], lossy, at=c)
+        ck.require(not bad, 'R14.5', de, c,
+                   'the string handed to the unit registry is the payload '
+                   'minus a constant prefix / surrounding blanks',
+                   'the payload is tokenised or rewritten (%s) before it is '
+                   'parsed: compound units such as "millimole / liter" '
+                   'lose everything after the first token' % (
+                       A.short(bad[0], 50) if bad else ''), c)
+    ck.floor('R14.5', n, 2, 'calls of the unit registry in deserialize')
+    mod = ck.repo.module('core.serialize')
+    m = 0
+    for ci in mod.classes.values():
+        f = ci.methods.get('serialize')
+        if f is None:
+            continue
+        m += 1
+        ck.functions.add(f.fq)
+        data = A.params_of(f.node)[1] if len(A.params_of(f.node)) > 1 \
+            else None
+        partial = [c for c in A.calls_in(f.node, ('sorted', 'min', 'max'))
+                   if data and data in A.names_in(c)]
+        partial += [c for c in A.calls_in(f.node, 'sort')]
+        ck.require(not partial, 'R14.5', f,
+                   partial[0] if partial else f.node.name,
+                   'serialize() is total on its type (no ordering of '
+                   'arbitrary members)',
+                   '%s.serialize orders the members of the data (%s): sets '
+                   'or sequences with unorderable members raise instead of '
+                   'being serialised' % (ci.name, A.short(
+                       partial[0], 40) if partial else ''),
+                   partial[0] if partial else None)
+    ck.floor('R14.5', m, 6, 'serialize methods')
